@@ -229,10 +229,11 @@ def shard(ctx):
             for fname in sorted(fx_basic.FUNCS):
                 for r in RY:
                     for y in RY:
-                        try:
-                            do_trace(ctx, fname, [["lit", 0], ["dict", [[["lit", "a"], ["inst", "Outer.Inner"]]]]], 2, r, y, tmpdir)
-                        except core.Violation as v:
-                            ctx.record_violation(v.signature, v.spec, v.message)
+                        for last in (["dict", [[["lit", "a"], ["inst", "Outer.Inner"]]]], ["inst", "Registry"], ["cls", "Registry"], ["special", "func"]):
+                            try:
+                                do_trace(ctx, fname, [["lit", 0], last], 2, r, y, tmpdir)
+                            except core.Violation as v:
+                                ctx.record_violation(v.signature, v.spec, v.message)
     finally:
         shutil.rmtree(tmpdir, ignore_errors=True)
 
